@@ -645,7 +645,7 @@ def check_property(prop, tier, seed, jobs=4):
                     cex, oracle = None, "counterexample search unavailable: %s" % e
                 p = write_replay(prop, fl, r, cex, oracle)
             else:
-                d = os.path.join(VERIF, "replays", prop)
+                d = os.path.join(os.environ.get("VERIF_REPLAY_DIR", os.path.join(VERIF, "replays")), prop)
                 os.makedirs(d, exist_ok=True)
                 p = os.path.join(d, re.sub(r"[^A-Za-z0-9_.-]+", "_", fl["obligation"]) + ".json")
                 with open(p, "w") as f:
